@@ -15,10 +15,10 @@ package buffer
 
 //@ func newErrorReader
 //@   modifies nothing
-//@   ensures result != nil && typeis(result, "buffer.errorReader")
+//@   ensures result != nil && fresh(result) && typeis(result, "buffer.errorReader")
 //@ func newErrorChunkReader
 //@   modifies nothing
-//@   ensures result != nil && typeis(result, "buffer.errorChunkReader")
+//@   ensures result != nil && fresh(result) && typeis(result, "buffer.errorChunkReader")
 //@ func validateReaderOffset
 //@   modifies nothing
 //@   ensures (result == nil) <==> (0 <= requested && requested <= length)
